@@ -13,12 +13,21 @@ from .c08 import kfull
 
 # ============================================================================ C14
 
-def _spectral(rs, shp, n, gaps):
-    """Tensor whose mode-n unfolding has prescribed, well separated singular values."""
+def _spectral(rs, shp, n, gaps, balanced=False):
+    """Tensor whose mode-n unfolding has prescribed, well separated singular values.  balanced: the leading
+    mode-n vectors are (1,..,1)/sqrt(d) and (1,-1,0,..)/sqrt(2) (largest and most negative entry of equal size)."""
     d = shp[n]
     rest = int(np.prod(shp)) // d
     k = min(d, rest)
     U = np.linalg.qr(rs.randn(d, d))[0]
+    if balanced and d >= 2:
+        B = rs.randn(d, d)
+        B[:, 0] = 1.0
+        B[:, 1] = 0.0
+        B[0, 1], B[1, 1] = 1.0, -1.0
+        U = np.linalg.qr(B)[0]
+        U[:, 0] *= np.sign(U[0, 0])
+        U[:, 1] *= np.sign(U[0, 1])
     V = np.linalg.qr(rs.randn(rest, rest))[0]
     s = np.array([10.0 * (0.5 ** i) for i in range(k)])
     Xn = (U[:, :k] * s) @ V[:, :k].T
@@ -41,6 +50,12 @@ class _:
                     for flip in (True, False):
                         for kind in ("tensor", "sptensor", "ktensor", "ttensor"):
                             yield dict(shape=list(shp), n=n, r=r, flip=flip, kind=kind, seed=rng.randrange(10**6))
+        # leading vectors whose largest and most negative entries have the same magnitude (sign rule ties)
+        for shp in [(2, 3, 2), (4, 3), (3, 2, 2)]:
+            for n in range(len(shp)):
+                for r in range(1, shp[n] + 1):
+                    for kind in ("tensor", "sptensor"):
+                        yield dict(shape=list(shp), n=n, r=r, flip=True, kind=kind, balanced=True, seed=rng.randrange(10**6))
 
     def run(self, case):
         ttb = import_pyttb()
@@ -48,7 +63,7 @@ class _:
         shp, n, r, kind = tuple(case["shape"]), case["n"], case["r"], case["kind"]
         N = len(shp)
         if kind in ("tensor", "sptensor"):
-            X, _, _ = _spectral(rs, shp, n, None)
+            X, _, _ = _spectral(rs, shp, n, None, case.get("balanced", False))
             obj = ttb.tensor(X.copy())
             if kind == "sptensor":
                 obj = obj.to_sptensor()
@@ -87,8 +102,10 @@ class _:
                 raise Fail(f"eigenvector-order:{cls}", f"{case}: column {c} residual {res} for eigenvalue {ew[c]} (spectrum {ew})")
         if case["flip"]:
             for c in range(k):
-                i = int(np.argmax(np.abs(V_[:, c])))
-                if V_[i, c] < 0:
+                a = np.abs(V_[:, c])
+                i = int(np.argmax(a))
+                tie = (a >= a[i] * (1 - 1e-9)).sum() > 1 and (V_[a >= a[i] * (1 - 1e-9), c] < 0).any() and (V_[a >= a[i] * (1 - 1e-9), c] > 0).any()
+                if V_[i, c] < 0 and not tie:
                     raise Fail(f"sign:{cls}", f"{case}: column {c}")
         # same subspace as the dense representation
         Pd = ev[:, :k] @ ev[:, :k].T
